@@ -28,6 +28,7 @@ META["text"] += " (R6 = C06.R4) each datum is B of the MVR and the CVR of the sa
 META["text"] += ' R6 also borrows the CVR-side style filter of C06.R4 and C06.R1 (every margin is recomputed from the CVRs handed in before it is used).'
 META["text"] += ' R6 also: the data mvrs_to_data returns are the array of B values as built (not clipped, rounded, re-bound or written into).'
 META["text"] += ' R1 also: B, omega and the mean keep no state between calls (no cache of an earlier margin or record).'
+META["text"] += ' R3 also: set_all_margins_from_cvrs hands the CVR list on as given (not de-duplicated or filtered).'
 
 SPEC_OMEGA = '''
 def spec(self, mvr, cvr, use_style):
